@@ -1,8 +1,15 @@
 use super::*;
+use std::collections::HashSet;
 use std::fs;
+use std::path::PathBuf;
 
 #[derive(Debug, Default)]
-pub(crate) struct FilesWithBackupEmitter;
+pub(crate) struct FilesWithBackupEmitter {
+    /// Files whose original has been moved to its `.bk` sibling during this run. A file can be
+    /// rewritten again later in the same run (it is reached by another input, or declared
+    /// twice): its backup is the text it had before the run, not an intermediate one.
+    backed_up: HashSet<PathBuf>,
+}
 
 impl Emitter for FilesWithBackupEmitter {
     fn emit_formatted_file(
@@ -21,9 +28,13 @@ impl Emitter for FilesWithBackupEmitter {
             // original.
             let tmp_name = filename.with_extension("tmp");
             let bk_name = filename.with_extension("bk");
+            let file_id = fs::canonicalize(filename).unwrap_or_else(|_| filename.to_path_buf());
 
             fs::write(&tmp_name, formatted_text)?;
-            fs::rename(filename, bk_name)?;
+            if !self.backed_up.contains(&file_id) {
+                fs::rename(filename, bk_name)?;
+                self.backed_up.insert(file_id);
+            }
             fs::rename(tmp_name, filename)?;
         }
         Ok(EmitterResult::default())
